@@ -104,6 +104,19 @@ def step (d0 : DState) (line : String) : DState × String :=
           match lookupN d.callInfo t with
           | some (_, o :: _) => ({ d with fEnd := setS d.fEnd o (vcOf d t) }, "ok")
           | _ => (d, "ok")
+      | ["plain", rw, x, _sz] =>
+          -- a compiler-instrumented plain access of nsync's own code to a registered object (queue links,
+          -- waiter fields, note tree fields, ...): same race rule as client data
+          let lw := lookupS d.lastWrite x
+          let rs := (lookupS d.reads x).getD []
+          let ts := threads d
+          let okW := match lw with | some (u, c) => u == t || leOn ts c (vcOf d t) | none => true
+          if !okW then (d, s!"REJECT vc: race on nsync's own plain field {x}: access by thread {t} is not ordered after the last write")
+          else if rw == "w" then
+            if rs.all (fun (u, c) => u == t || leOn ts c (vcOf d t)) then
+              ({ d with lastWrite := setS d.lastWrite x (t, vcOf d t), reads := setS d.reads x [], nChecks := d.nChecks + 1 }, "ok")
+            else (d, s!"REJECT vc: race on nsync's own plain field {x}: write by thread {t} is not ordered after an earlier read")
+          else ({ d with reads := setS d.reads x ((t, vcOf d t) :: rs.filter (fun p => p.1 != t)), nChecks := d.nChecks + 1 }, "ok")
       | ["data", rw, x, _v] =>
           let lw := lookupS d.lastWrite x
           let rs := (lookupS d.reads x).getD []
